@@ -85,7 +85,7 @@ func helloOf(s scn) (banner, hello string) {
 	}
 	nl, ind, pad := "", "", ""
 	switch s.layout {
-	case "pretty", "decl", "banner":
+	case "pretty", "decl", "banner", "trailnl":
 		nl, ind = "\n", "  "
 	case "padded":
 		nl, ind, pad = "\n", "  ", "\n      "
@@ -151,6 +151,9 @@ func scenario(s scn) sched.Scenario {
 		w.Explore(cfg, sched.Bounds{Env: s.env}, func(e *sched.Env) {
 			banner, hello := helloOf(s)
 			srv := &dev.NCServer{Hello: hello, Banner: banner, Echo: s.echo}
+			if s.layout == "trailnl" {
+				srv.HelloTrail = "\n" // a line feed after the delimiter, as servers that print the hello with println do
+			}
 			if s.layout == "nothello" {
 				srv.Hello = `<rpc-reply xmlns="` + dev.NSBase + `"><ok/></rpc-reply>`
 			}
@@ -279,7 +282,7 @@ func escAll(in []string) []string {
 
 func scenarios(tier string) []sched.Scenario {
 	var out []sched.Scenario
-	layouts := []string{"compact", "pretty", "padded", "prefixed", "decl", "banner"}
+	layouts := []string{"compact", "pretty", "padded", "prefixed", "decl", "banner", "trailnl"}
 	for adv := 0; adv < 4; adv++ {
 		for _, pref := range []string{"", "1.0", "1.1"} {
 			for _, lay := range layouts {
@@ -317,7 +320,7 @@ func TestCheck(t *testing.T) {
 	sched.Main(t, sched.Check{
 		ID:          "C09",
 		Level:       "exploration",
-		Rule:        "exhaustive product: advertised subset of {base:1.0, base:1.1} x preferred {none,1.0,1.1} x hello layout {compact, pretty, padded capability text, nc: prefix, XML declaration, banner first} x extra capabilities {none, 15, one with &amp;} x session-id {absent, 1, 4294967295} x echo x read preset {whole, 1, 7 bytes} (+ every single extra cut/hold on the whole-message preset), plus non-hello first message and hello without capabilities; each cell = Open + Get on the real driver against the server model; distinct = distinct (cell, schedule, observation)",
+		Rule:        "exhaustive product: advertised subset of {base:1.0, base:1.1} x preferred {none,1.0,1.1} x hello layout {compact, pretty, padded capability text, nc: prefix, XML declaration, banner first, line feed after the delimiter} x extra capabilities {none, 15, one with &amp;} x session-id {absent, 1, 4294967295} x echo x read preset {whole, 1, 7 bytes} (+ every single extra cut/hold on the whole-message preset), plus non-hello first message and hello without capabilities; each cell = Open + Get on the real driver against the server model; distinct = distinct (cell, schedule, observation)",
 		Assumptions: []string{"capability text compared after trimming whitespace; XML-escaped text accepted as equal to its unescaped form", "silence instead of a hello is C05's case"},
 		Scenarios:   scenarios,
 		Budget:      map[string]time.Duration{"quick": 5 * time.Minute, "thorough": 30 * time.Minute},
